@@ -6,6 +6,16 @@ import (
 
 	_ "verif/checks/chains"
 	_ "verif/checks/arrays"
+	_ "verif/checks/autosafe"
+	_ "verif/checks/cachettl"
+	_ "verif/checks/cfgscope"
+	_ "verif/checks/crashfree"
+	_ "verif/checks/extexit"
+	_ "verif/checks/histfile"
+	_ "verif/checks/jobs"
+	_ "verif/checks/redirect"
+	_ "verif/checks/scoping"
+	_ "verif/checks/structvars"
 	_ "verif/checks/convert"
 	_ "verif/checks/esccmd"
 	_ "verif/checks/escinv"
